@@ -292,4 +292,6 @@ def run(ctx, rep):
             rep.viol(crid, 'control-false-alarm:c17::drains_iterator', 'the rule fires on the compliant fixture')
     except KeyError:
         rep.anchor('M-C17a', 'fixture crate facts', False)
+    from props import cg
+    cg.cg_controls(rep, ctx, [('M-C17a', rule_derive_list)])
     rep.trusted += ['rustc nightly MIR', 'engines/mirfacts', 'syn: Punctuated::parse_terminated consumes the whole list; quote re-renders paths faithfully']
